@@ -336,7 +336,10 @@ func amplifier(t *rapid.T, c *Case) []byte {
 	var body []byte
 	switch kind {
 	case "list-tower": // [m] holding one [m] holding one ... : 11 bytes per level
-		level := append(sigString("[m]"), u32(1)...)
+		// every level may announce more elements than it has: only the first
+		// one (the next level) is present, the input ends in mid-air
+		per := rapid.SampledFrom([]uint32{1, 1, 2, 4095, 4096}).Draw(t, "perlevel")
+		level := append(sigString("[m]"), u32(per)...)
 		body = tower(level, depth, append(sigString("i"), 0, 0, 0, 0))
 		sig = "m"
 	case "zero-width-count":
@@ -357,7 +360,7 @@ func amplifier(t *rapid.T, c *Case) []byte {
 	case "deep-list-sig":
 		d := rapid.IntRange(1, 300).Draw(t, "ld")
 		sig = strings.Repeat("[", d) + "i" + strings.Repeat("]", d)
-		body = bytes.Repeat(u32(1), d+1)
+		body = bytes.Repeat(u32(rapid.SampledFrom([]uint32{1, 1, 2, 4096, 0x00FFFFFF}).Draw(t, "perlevel2")), d+1)
 	case "struct-tower":
 		sig = strings.Repeat("(", pdepth) + "i" + strings.Repeat(")<S,a>", pdepth)
 		body = []byte{1, 0, 0, 0}
